@@ -121,37 +121,41 @@ def run(ctx):
         p = ctx.run([drv, stack, ctx.path("state-" + stack), rf, tf], timeout=1800)
         ctx.log(stack, p.stdout.strip().splitlines()[-1])
         lines = vlib.read_ndjson(tf)
-        pending = split_rounds(lines)
+        allrounds = split_rounds(lines)
         ctx.sample({"stack": stack, "round": rounds[0]})
         ctx.evaluations += sum(len(r) for r in rounds)
+        # validate in batches: RetIdx/HasRet scan the rest of the trace, so one long trace costs O(n^2)
+        BATCH = 150
         tries = 0
-        while pending:
-            tries += 1
-            if tries > 6:
-                raise vlib.Infra("too many rejected rounds")
-            f = ctx.path("tv-%s-%d.ndjson" % (stack, tries))
-            flat = [ln for r in pending for ln in r]
-            vlib.write_ndjson(f, flat)
-            verdict, high, n = validate(ctx, f)
-            if verdict == "accepted":
-                ctx.traces += len(pending)
-                ctx.events += n
-                break
-            # locate the round containing the high-water line
-            acc, k = 0, len(pending) - 1
-            for i, r in enumerate(pending):
-                acc += len(r)
-                if high <= acc:
-                    k = i
+        for b0 in range(0, len(allrounds), BATCH):
+            pending = allrounds[b0:b0 + BATCH]
+            while pending:
+                tries += 1
+                if tries > 6 + len(allrounds) // BATCH:
+                    raise vlib.Infra("too many rejected rounds")
+                f = ctx.path("tv-%s-%d.ndjson" % (stack, tries))
+                flat = [ln for r in pending for ln in r]
+                vlib.write_ndjson(f, flat)
+                verdict, high, n = validate(ctx, f)
+                if verdict == "accepted":
+                    ctx.traces += len(pending)
+                    ctx.events += n
                     break
-            rp = ctx.path("replay-%s-%d.ndjson" % (stack, tries))
-            vlib.write_ndjson(rp, pending[k])
-            ctx.violation(rp, "stack %s: the recorded concurrent history of round %s is %s (no linearisation of the calls "
-                              "explains the logged results/final content under CondWrite.tla); stuck at line %d of %d"
-                          % (stack, pending[k][0].get("round"), verdict, high, n))
-            ctx.traces += k
-            ctx.events += sum(len(r) for r in pending[:k])
-            pending = pending[k + 1:]
+                # locate the round containing the high-water line
+                acc, k = 0, len(pending) - 1
+                for i, r in enumerate(pending):
+                    acc += len(r)
+                    if high <= acc:
+                        k = i
+                        break
+                rp = ctx.path("replay-%s-%d.ndjson" % (stack, tries))
+                vlib.write_ndjson(rp, pending[k])
+                ctx.violation(rp, "stack %s: the recorded concurrent history of round %s is %s (no linearisation of the calls "
+                                  "explains the logged results/final content under CondWrite.tla); stuck at line %d of %d"
+                              % (stack, pending[k][0].get("round"), verdict, high, n))
+                ctx.traces += k
+                ctx.events += sum(len(r) for r in pending[:k])
+                pending = pending[k + 1:]
     # binding self-test: corrupt one successful result and require rejection
     lines = vlib.read_ndjson(ctx.path("trace-%s.ndjson" % stacks[0]))
     rs = split_rounds(lines)
